@@ -263,8 +263,6 @@ Fixpoint check_steps (h : handler) (md : Z) (s : sys) (ops : list sop) (expect :
   | _, _ => false
   end.
 
-(* handler code: 0 = default_handler, 1 = test_handler *)
-Definition handler_of (k : Z) : handler := if k =? 0 then default_handler else test_handler.
 
 Definition check_sys (cs : Z * Z * sys * list sop * list obs) : bool :=
   let '(hk, md, s, ops, expect) := cs in check_steps (handler_of hk) md s ops expect.
